@@ -52,3 +52,13 @@ Theorem cmap12_groups_expand : forall step l, step = 0 \/ step = 1 ->
   flat_map (ModelCmap.expand_group step) (ModelCmap.compile_groups step l) = l.
 Proof. exact ProofsCmap.groups_expand. Qed.
 Print Assumptions cmap12_groups_expand.
+
+(* ---- a composite glyph's component record (ModelComponent.v: GlyphComponent.compile / decompile — argument widths, the three
+   transform forms, the flag word) decodes to what was encoded and leaves the following bytes alone *)
+From FV Require C02.ModelComponent C02.ProofsComponent.
+Theorem component_roundtrip : forall more instr c bytes rest,
+  Z.land (ModelComponent.cflags c) ModelComponent.KEEP = ModelComponent.cflags c ->
+  ModelComponent.compile more instr c = Ok bytes ->
+  ModelComponent.decompile (bytes ++ rest) = Ok (c, more, instr, rest).
+Proof. exact ProofsComponent.component_roundtrip. Qed.
+Print Assumptions component_roundtrip.
